@@ -44,6 +44,16 @@ theorem axpbyE_zero_congr (a : α) (x : Array α) {y y' : Array α} (site : Stri
 
 end
 
+theorem drop_of_sameFrom {n : Nat} {w w' : Array α} (h : SameFrom n w w') : w.toList.drop n = w'.toList.drop n := by
+  have := congrArg Array.toList h.2
+  simpa [Array.toList_extract, List.take_of_length_le] using this
+
+/-- `self.scalarop_from(op, v)` overwrites `self[.. v.len()]` without reading it -/
+theorem scalaropFrom_congr (op : α → α) (q : Array α) {w w' : Array α} (h : SameFrom q.size w w') :
+    Vec.scalaropFrom w op q = Vec.scalaropFrom w' op q := by
+  unfold Vec.scalaropFrom
+  rw [h.1, drop_of_sameFrom h]
+
 /-! ### `rng_cones` -/
 
 theorem cutE_go_sizes {a a' : Array α} (site : String) (h : a.size = a'.size) :
